@@ -48,18 +48,30 @@ Theorem C05_transfer_correct : forall scf e rep, honest_cfg scf e rep ->
 Proof. exact transfer_correct_lemma. Qed.
 Print Assumptions C05_transfer_correct.
 
-(* 4. Block2 assembly against ANY list of responses: a response handed to the caller is the first response itself (no Block2 / final),
-      or — by design, protocol.py:1110 — a later response without Block2 option, or the in-order concatenation of a chain in which
-      every block starts exactly where the assembled bytes end (NUM * size = length so far), carries the ETag of the first block, is
-      exactly one block long when more follow and at most one block long when final (b2_chain). *)
+(* 4. Block2 assembly against ANY list of responses: a response handed to the caller is the first response itself (no Block2, or block 0
+      with the more-flag clear — a later block only if the application itself asked for a later block), or — by design, protocol.py:1123 —
+      a later response without Block2 option, or the in-order concatenation of a chain in which every block starts exactly where the
+      assembled bytes end (NUM * size = length so far), carries the ETag of the first block, is exactly one block long when more follow
+      and at most one block long when final (b2_chain). *)
 Theorem C05_block2_assembly_exact : forall fuel script t initial mbse rest tr r,
   complete_by_requesting_block2 serve_script fuel script t initial mbse = (rest, tr, Done r) ->
   (r = initial /\ rs_block2 initial = None /\ rest = script) \/
-  (exists b, rs_block2 initial = Some b /\ bt_more b = false /\ r = clear_block2 initial /\ rest = script) \/
+  (exists b, rs_block2 initial = Some b /\ bt_more b = false /\
+             (bt_num b = 0 \/ exists rb, rq_block2 t = Some rb /\ bt_num rb <> 0) /\
+             r = clear_block2 initial /\ rest = script) \/
   (exists szx consumed, rs_block2 initial = Some (0, true, szx) /\ script = map SResp consumed ++ rest /\
                         b2_chain initial consumed r /\ length tr = length consumed).
 Proof. exact block2_assembly_exact_lemma. Qed.
 Print Assumptions C05_block2_assembly_exact.
+
+(* 4b. (defect fixed in 69c1201) a first response that names a later block — final or not — ends the request with UnexpectedBlock2,
+       unless the application itself asked for a later block. *)
+Theorem C05_first_block2_number_checked : forall (S : Type) (serve : S -> request -> S * sresult) fuel s t initial mbse b,
+  rs_block2 initial = Some b -> bt_num b <> 0 ->
+  (rq_block2 t = None \/ exists rb, rq_block2 t = Some rb /\ bt_num rb = 0) ->
+  complete_by_requesting_block2 serve fuel s t initial mbse = (s, [], Err UnexpectedBlock2).
+Proof. exact @first_block2_number_checked_lemma. Qed.
+Print Assumptions C05_first_block2_number_checked.
 
 (* 5. ... hence, whenever and however often the representation changes during the transfer: if every block the server sends is a slice
       of one of its representations tagged with that representation's ETag (ETags distinct), a body handed to the caller is one of
@@ -103,14 +115,6 @@ Theorem C05_block1_transport_failure : forall (S : Type) (serve : S -> request -
 Proof. exact @block1_transport_failure. Qed.
 Print Assumptions C05_block1_transport_failure.
 
-(* 8. KNOWN FINDING (open), carried by the model: a FIRST response whose Block2 option names a later block but has the more-flag clear
-      is handed to the caller as if it were the whole body (protocol.py:1087-1092 checks the block number only when more is set). *)
-Theorem C05_first_block2_number_unchecked_refuted : exists script cfg tr r,
-  run_script script cfg = (tr, Done r) /\
-  (exists x, script = [SResp x] /\ rs_block2 x = Some (2, false, 5)) /\ blen (rs_payload r) = 87 /\ rs_block2 r = None.
-Proof. exact first_block2_number_unchecked_witness. Qed.
-Print Assumptions C05_first_block2_number_unchecked_refuted.
-
 (* ---- non-vacuity: the hypotheses are satisfiable by concrete non-trivial instances *)
 Definition ex_scf : scfg := {| s_policy1 := [2; 0]; s_policy2 := [5; 1]; s_reps := [(Some 10, mkbody 300 1)]; s_rep_at := [];
                                s_atomic := true; s_mis := None |}.
@@ -144,3 +148,9 @@ Example ex_block1_error : exists rq, block1_request ex_cfg 0 6 = Ok rq /\ rq_blo
   block1_loop serve_script 3 [SResp {| rs_code := 95; rs_block1 := Some (1, true, 6); rs_block2 := None; rs_etag := None; rs_payload := []; rs_maxexp := 6 |}]
      ex_cfg 0 6 6 = ([], [rq], Err UnexpectedBlock1Option).
 Proof. eexists. split; [vm_compute; reflexivity|]. split; vm_compute; reflexivity. Qed.
+(* premises of theorem 4b: the formerly accepted response 2.05 Block2 2/0/512 is now refused *)
+Example ex_first_block_refused :
+  run_script [SResp {| rs_code := 69; rs_block1 := None; rs_block2 := Some (2, false, 5); rs_etag := Some 4; rs_payload := mkbody 87 148; rs_maxexp := 6 |}]
+             {| c_body := []; c_mps := 1124; c_mbse := 5; c_block2 := None |}
+  = ([{| rq_block1 := None; rq_block2 := None; rq_size1 := None; rq_payload := [] |}], Err UnexpectedBlock2).
+Proof. vm_compute. reflexivity. Qed.
